@@ -248,7 +248,7 @@ Lemma set_out_types2_canon tys po ts po' : set_out_types2 tys po ts = Ok po' -> 
 Proof.
   destruct po; cbn; intros H; try (inversion H; reflexivity).
   destruct ts as [|t r]; [discriminate|]. destruct (nthN tys t) as [[c rows| |]|]; try discriminate.
-  destruct rows as [|a [|b [|]]]; try discriminate. destruct (row_eqb a just_in); inversion H; reflexivity.
+  destruct rows as [|a [|b [|]]]; try discriminate. destruct (row_eqb a _); inversion H; reflexivity.
 Qed.
 
 Lemma set_outputs2_same tys st b ws st' : set_outputs2 tys st b ws = Ok st' -> WB2 st b -> Same st st'.
